@@ -325,6 +325,10 @@ func instrument(scratch, variant string) (string, error) {
 	if err != nil {
 		return "", fmt.Errorf("instrumenter: %v", err)
 	}
+	if len(rep.Unmodelled) > 0 {
+		// not a verdict about the property: the harness cannot run this tree faithfully
+		return "", fmt.Errorf("the tree makes system calls the simulated kernel does not model (they would reach the real kernel with simulated descriptor numbers):\n  %s", strings.Join(rep.Unmodelled, "\n  "))
+	}
 	if os.Getenv("VERIF_VERBOSE") != "" {
 		fmt.Fprintf(os.Stderr, "instrumented %d files for %s: %v skipped=%v\n", rep.Files, variant, rep.Rewrites, rep.Skipped)
 	}
